@@ -462,7 +462,8 @@ def gen_history(rng):
             if rng.random() < 0.15:
                 k += 1
                 ops.append({"op": "run", "job": j, "id": f"j{k}", "reuse": {"const": True, "dict": True, "driver": rng.random() < 0.5}})
-    if rng.random() < 0.10:
+    u_stratum = rng.random()
+    if u_stratum < 0.10:
         # settings-dictionary stratum: two DIFFERENT jobs of one settings family, the second with the dictionary object
         # the first one used (whatever the first job wrote into it must not change the second job's numbers)
         fams = {}
@@ -473,8 +474,11 @@ def gen_history(rng):
         a, b = rng.sample(fams[fam], 2)
         if rng.random() < 0.5 and fam == "am1_sh":
             a, b = "md_sh_h2co", "cis2_h2co"
+        if rng.random() < 0.3:
+            # the engine that adjusts excited-state settings for its own steps, then a calculation that must not see them
+            a, b = "md_excxl_h2co", rng.choice(["cis_esmd_h2co", "md_excbasic_h2co"])
         ops = [{"op": "run", "job": a, "id": "fa", "reuse": {"const": False, "dict": False, "driver": False}}, {"op": "run", "job": b, "id": "fb", "reuse": {"const": rng.random() < 0.5, "dict": True, "driver": False}}]
-    if rng.random() < 0.14:
+    elif u_stratum < 0.24:
         # MD-driver stratum: two (or three) DIFFERENT runs on ONE MD / optimiser driver object - other molecule, other atom
         # count, other COM mode, caller-supplied velocities - each compared with the same run on new objects
         groups = {}
@@ -484,7 +488,7 @@ def gen_history(rng):
         key = rng.choice(sorted(groups, key=str))
         js = [rng.choice(groups[key]) for _ in range(rng.choice([2, 2, 3]))]  # the same run twice on one driver is a case too
         ops = [{"op": "run", "job": j, "id": f"m{n_}", "reuse": {"const": n_ > 0 and rng.random() < 0.5, "dict": n_ > 0, "driver": n_ > 0}} for n_, j in enumerate(js)]
-    if rng.random() < 0.05:
+    elif u_stratum < 0.29:
         # process-global caches of PM6 d-orbital terms: a PM6 job on d-shell elements after another one with other d
         # exponents (learned parameters), other elements, or after a call the library rejects half-way
         a = rng.choice(["sp_pm6_hscl_learned", "fail_pm6_float32", "sp_pm6_h2s", "sp_pm6_hscl"])
